@@ -20,3 +20,25 @@ Definition lower_byte (b : byte) : byte :=
 Definition to_lower (s : bytes) : bytes := map lower_byte s.
 
 Definition repeat_byte (b : byte) (n : nat) : bytes := repeat b n.
+
+(* fmt.Sprintf with a format that is NOT a constant (a constant one is expanded by the translator): the verbs %d on an
+   int, %s on a string and %% ; None = anything else (another verb, a missing, superfluous or ill-typed argument -
+   Go prints %!verb(..) there, which is not modelled) *)
+Inductive sarg := SInt (z : Z) | SStr (s : bytes).
+Fixpoint go_sprintf (f : bytes) (args : list sarg) : option bytes :=
+  match f with
+  | [] => match args with [] => Some [] | _ => None end
+  | c :: f' =>
+    if bz c =? 37
+    then match f' with
+         | [] => None
+         | v :: f'' =>
+           if bz v =? 37 then option_map (cons c) (go_sprintf f'' args)
+           else if bz v =? 100
+           then match args with SInt z :: r => option_map (app (dec_of_Z z)) (go_sprintf f'' r) | _ => None end
+           else if bz v =? 115
+           then match args with SStr s :: r => option_map (app s) (go_sprintf f'' r) | _ => None end
+           else None
+         end
+    else option_map (cons c) (go_sprintf f' args)
+  end.
